@@ -41,6 +41,8 @@ def coq_term(line):
                 ops.append("OpGet %s" % p[1])
             elif p[0] == "c":
                 ops.append("OpContains %s" % p[1])
+            elif p[0] == "v":
+                ops.append("OpGetValueTx %s" % p[1])
             elif p[0] == "l":
                 ops.append("OpLen")
             else:
